@@ -237,8 +237,16 @@ func (q *TransmitLimitedQueue) deleteItem(cur *limitedBroadcast) {
 	if cur.name != "" {
 		delete(q.tm, cur.name)
 	}
+}
 
-	if q.tq.Len() == 0 {
+// resetIDGenIfIdleLocked restarts the id generator once the queue is empty.
+// This must only be called at the end of an operation, when no item that
+// already carries an id is held outside of the tree waiting to be (re)added:
+// otherwise a later submission could be handed the same id and, with equal
+// transmits and length, silently replace that item. You must already hold
+// the mutex.
+func (q *TransmitLimitedQueue) resetIDGenIfIdleLocked() {
+	if q.lenLocked() == 0 {
 		// At idle there's no reason to let the id generator keep going
 		// indefinitely.
 		q.idGen = 0
@@ -357,6 +365,7 @@ func (q *TransmitLimitedQueue) GetBroadcasts(overhead, limit int) [][]byte {
 	for _, cur := range reinsert {
 		q.addItem(cur)
 	}
+	q.resetIDGenIfIdleLocked()
 
 	return toSend
 }
@@ -398,6 +407,11 @@ func (q *TransmitLimitedQueue) Prune(maxRetain int) {
 	q.mu.Lock()
 	defer q.mu.Unlock()
 
+	// Nothing to prune on an empty (possibly never initialized) queue
+	if q.lenLocked() == 0 {
+		return
+	}
+
 	// Do nothing if queue size is less than the limit
 	for q.tq.Len() > maxRetain {
 		item := q.tq.Max()
@@ -408,4 +422,5 @@ func (q *TransmitLimitedQueue) Prune(maxRetain int) {
 		cur.b.Finished()
 		q.deleteItem(cur)
 	}
+	q.resetIDGenIfIdleLocked()
 }
